@@ -172,7 +172,7 @@ class Welford(Metric):
 
   def reset(self) -> None:
     """Reset this ``Metric``."""
-    self.count.value = jnp.array(0, dtype=jnp.uint32)
+    self.count.value = jnp.array(0, dtype=jnp.int32)
     self.mean.value = jnp.array(0, dtype=jnp.float32)
     self.m2.value = jnp.array(0, dtype=jnp.float32)
 
